@@ -2,11 +2,12 @@
 From Coq Require Extraction.
 From Coq Require Import ExtrOcamlBasic.
 From SQ Require Import lib.Base.
-From SQ Require model.Cubic model.Bbr.
+From SQ Require model.Cubic model.Bbr model.CcGate.
 Extraction Language OCaml.
 
 Definition cubic_run := Cubic.run.
 Definition cubic_judge := Cubic.judge.
 Definition bbr_run := Bbr.run.
 Definition bbr_judge := Bbr.judge.
-Extraction "../ocaml/gen/C10/model.ml" cubic_run cubic_judge bbr_run bbr_judge.
+Definition cubic_gate_judge := CcGate.cubic_gate_judge.
+Extraction "../ocaml/gen/C10/model.ml" cubic_run cubic_judge bbr_run bbr_judge cubic_gate_judge.
